@@ -1,9 +1,9 @@
 #!/bin/bash
 # seed_record_auto.sh ID status "note" — re-evaluates /verif/seeded/ID/patch.diff with the current checker,
 # collects the failing obligation ids and writes meta.json via seed_record.py
-ID=$1; ST=$2; NOTE=$3
-OUT=$(./seed_eval.sh /verif/seeded/$ID $ID 2>&1)
+ID=$1; ST=$2; NOTE=$3; P=${ID:0:3}
+OUT=$(./seed_eval.sh /verif/seeded/$ID $P 2>&1)
 EXIT=$(echo "$OUT" | grep -o "exit=[0-9]*" | head -1)
-OBS=$(echo "$OUT" | grep "\[$ID\]" | sed -E "s/^ *[^ ]+: //; s/ \[$ID\].*//" | sort -u | head -6 | paste -sd';' | sed 's/;/ ; /g')
+OBS=$(echo "$OUT" | grep "\[$P\]" | sed -E "s/^ *[^ ]+: //; s/ \[$P\].*//" | sort -u | head -6 | paste -sd';' | sed 's/;/ ; /g')
 [ "$EXIT" = "exit=1" ] || { echo "$ID: NOT CAUGHT ($EXIT)"; OBS="(no violation reported)"; }
 ./seed_record.py $ID "${NOTE}${NOTE:+ — }now reported by: $OBS" $ST
